@@ -2015,6 +2015,34 @@ def gen_family_cases(prop, lang, rnd, ncases):
     return cases
 
 
+def gen_same_title_cases(prop, lang, rnd, titles):
+    """C07 (C06): more records than the limit carry the very same title (or differ in letter case only), with distinct
+    ratings; the title itself, a prefix and a word of it are asked for in several insertion orders"""
+    cases = []
+    for _k in range(2):
+        t = rnd.choice([x for x in titles if 1 <= len(x.split()) <= 3 and x.strip()] or ["metal mailbox"])
+        limit = rnd.choice([1, 2, 3])
+        n = limit + rnd.randint(1, 3)
+        recs = [rnd.choice([t, t, t.upper(), t.lower(), t.title()]) for _ in range(n)]
+        rt = distinct_ratings(rnd, n)
+        c = Case(prop, "same-title", lang=lang)
+        sid = c.new_store(lang, limit=limit)
+        for i, x in enumerate(recs):
+            c.add(sid, 100 + i, x, rt[i])
+        perms = [list(reversed(range(n)))]
+        for _p in range(3):
+            o = list(range(n))
+            rnd.shuffle(o)
+            perms.append(o)
+        for q in (t, t[:max(1, len(t) // 2)], t.split()[0]):
+            if prop == "C07":
+                c.search(sid, q, want=["qtok", "pairs"], max_pairs=6, perms=perms)
+            else:
+                c.search(sid, q, want=["qtok", "singles", "unlimited"])
+        cases.append(c)
+    return cases
+
+
 def gen_long_word_cases(prop, lang, rnd, ncases):
     """C19 / C01: record words longer than the initial matrix capacity of 20, first met by a short unfinished query on
     a matrix that has never grown (every case starts on a fresh thread), then by longer and finished queries, then short
